@@ -380,12 +380,18 @@ pub fn gen_children(r: &mut Rng) -> Case {
         budget -= 1;
         let sp = child_spec(r, 3, &mut 0);
         c0.push(Cop::Spawn { x: slot, spec: sp });
-        if r.chance(500) {
+        let cloned = r.chance(500);
+        if cloned {
             c0.push(Cop::Clone { x: slot + 1, h: slot });
         }
         // mostly one common message type, so that a broadcast has several receivers
         let ty = if r.chance(650) { same_ty } else { r.below(3) as u8 };
         c0.push(Cop::Send { h: 0, script: vec![Act::AddChild { ty, var: slot }] });
+        // the same child registered a second time, under another message type (through its clone)
+        if cloned && r.chance(400) {
+            let other = (ty % 2) + 1;
+            c0.push(Cop::Send { h: 0, script: vec![Act::AddChild { ty: other, var: slot + 1 }] });
+        }
         slot += 2;
     }
     let n = 2 + r.below(6);
@@ -476,7 +482,9 @@ pub fn gen_broker(r: &mut Rng) -> Case {
                 59..=63 => Cop::Stop { h },
                 64..=68 => Cop::Drop { h },
                 69..=74 => Cop::Send { h, script: vec![Act::Push(1), Act::Sleep(1 + r.below(10))] },
-                75..=80 => Cop::Ping { h },
+                75..=78 => Cop::Ping { h },
+                // a subscriber that dies by a failure while handles to it are kept
+                79..=80 => Cop::Send { h, script: vec![Act::Panic] },
                 81..=88 => Cop::Sleep(1 + r.below(10)),
                 _ => Cop::Yield,
             };
